@@ -3750,7 +3750,6 @@ BD_Shape<T>::refine(const Variable var,
   const Coefficient& sc_b = is_sc ? b : minus_b;
   const Coefficient& minus_sc_b = is_sc ? minus_b : b;
   const Coefficient& sc_denom = is_sc ? denominator : minus_denom;
-  const Coefficient& minus_sc_denom = is_sc ? minus_denom : denominator;
   // NOTE: here, for optimization purposes, `minus_expr' is only assigned
   // when `denominator' is negative. Do not use it unless you are sure
   // it has been correctly assigned.
@@ -3863,15 +3862,12 @@ BD_Shape<T>::refine(const Variable var,
       // towards zero. Since `sc_denom' is known to be positive, this amounts to
       // rounding downwards, which is achieved as usual by rounding upwards
       // `minus_sc_denom' and negating again the result.
-      PPL_DIRTY_TEMP(N, down_sc_denom);
-      assign_r(down_sc_denom, minus_sc_denom, ROUND_UP);
-      neg_assign_r(down_sc_denom, down_sc_denom, ROUND_UP);
 
       // Exploit the upper approximation, if possible.
       if (pinf_count <= 1) {
         // Compute quotient (if needed).
-        if (down_sc_denom != 1) {
-          div_assign_r(sum, sum, down_sc_denom, ROUND_UP);
+        if (sc_denom != 1) {
+          div_round_up_by_positive(sum, sc_denom);
         }
         // Add the upper bound constraint, if meaningful.
         if (pinf_count == 0) {
@@ -3893,8 +3889,8 @@ BD_Shape<T>::refine(const Variable var,
       // Exploit the lower approximation, if possible.
       if (neg_pinf_count <= 1) {
         // Compute quotient (if needed).
-        if (down_sc_denom != 1) {
-          div_assign_r(neg_sum, neg_sum, down_sc_denom, ROUND_UP);
+        if (sc_denom != 1) {
+          div_round_up_by_positive(neg_sum, sc_denom);
         }
         // Add the lower bound constraint, if meaningful.
         if (neg_pinf_count == 0) {
@@ -3956,10 +3952,7 @@ BD_Shape<T>::refine(const Variable var,
       // approximated towards zero. Since `sc_denom' is known to be
       // positive, this amounts to rounding downwards, which is achieved
       // by rounding upwards `minus_sc - denom' and negating again the result.
-      PPL_DIRTY_TEMP(N, down_sc_denom);
-      assign_r(down_sc_denom, minus_sc_denom, ROUND_UP);
-      neg_assign_r(down_sc_denom, down_sc_denom, ROUND_UP);
-      div_assign_r(sum, sum, down_sc_denom, ROUND_UP);
+      div_round_up_by_positive(sum, sc_denom);
     }
 
     if (pinf_count == 0) {
@@ -4016,10 +4009,7 @@ BD_Shape<T>::refine(const Variable var,
       // approximated towards zero. Since `sc_denom' is known to be positive,
       // this amounts to rounding downwards, which is achieved by rounding
       // upwards `minus_sc_denom' and negating again the result.
-      PPL_DIRTY_TEMP(N, down_sc_denom);
-      assign_r(down_sc_denom, minus_sc_denom, ROUND_UP);
-      neg_assign_r(down_sc_denom, down_sc_denom, ROUND_UP);
-      div_assign_r(sum, sum, down_sc_denom, ROUND_UP);
+      div_round_up_by_positive(sum, sc_denom);
     }
 
     if (pinf_count == 0) {
@@ -4224,7 +4214,6 @@ BD_Shape<T>::affine_image(const Variable var,
   const Coefficient& sc_b = is_sc ? b : minus_b;
   const Coefficient& minus_sc_b = is_sc ? minus_b : b;
   const Coefficient& sc_denom = is_sc ? denominator : minus_denom;
-  const Coefficient& minus_sc_denom = is_sc ? minus_denom : denominator;
   // NOTE: here, for optimization purposes, `minus_expr' is only assigned
   // when `denominator' is negative. Do not use it unless you are sure
   // it has been correctly assigned.
@@ -4338,10 +4327,7 @@ BD_Shape<T>::affine_image(const Variable var,
       // towards zero. Since `sc_denom' is known to be positive, this amounts to
       // rounding downwards, which is achieved as usual by rounding upwards
       // `minus_sc_denom' and negating again the result.
-      PPL_DIRTY_TEMP(N, down_sc_denom);
-      assign_r(down_sc_denom, minus_sc_denom, ROUND_UP);
-      neg_assign_r(down_sc_denom, down_sc_denom, ROUND_UP);
-      div_assign_r(pos_sum, pos_sum, down_sc_denom, ROUND_UP);
+      div_round_up_by_positive(pos_sum, sc_denom);
     }
     // Add the upper bound constraint, if meaningful.
     if (pos_pinf_count == 0) {
@@ -4365,10 +4351,7 @@ BD_Shape<T>::affine_image(const Variable var,
       // towards zero. Since `sc_denom' is known to be positive, this amounts to
       // rounding downwards, which is achieved as usual by rounding upwards
       // `minus_sc_denom' and negating again the result.
-      PPL_DIRTY_TEMP(N, down_sc_denom);
-      assign_r(down_sc_denom, minus_sc_denom, ROUND_UP);
-      neg_assign_r(down_sc_denom, down_sc_denom, ROUND_UP);
-      div_assign_r(neg_sum, neg_sum, down_sc_denom, ROUND_UP);
+      div_round_up_by_positive(neg_sum, sc_denom);
     }
     // Add the lower bound constraint, if meaningful.
     if (neg_pinf_count == 0) {
@@ -5402,7 +5385,6 @@ BD_Shape<T>
   neg_assign(minus_b, b);
   const Coefficient& sc_b = is_sc ? b : minus_b;
   const Coefficient& sc_denom = is_sc ? denominator : minus_denom;
-  const Coefficient& minus_sc_denom = is_sc ? minus_denom : denominator;
   // NOTE: here, for optimization purposes, `minus_expr' is only assigned
   // when `denominator' is negative. Do not use it unless you are sure
   // it has been correctly assigned.
@@ -5486,10 +5468,7 @@ BD_Shape<T>
       // towards zero. Since `sc_denom' is known to be positive, this amounts to
       // rounding downwards, which is achieved as usual by rounding upwards
       // `minus_sc_denom' and negating again the result.
-      PPL_DIRTY_TEMP(N, down_sc_denom);
-      assign_r(down_sc_denom, minus_sc_denom, ROUND_UP);
-      neg_assign_r(down_sc_denom, down_sc_denom, ROUND_UP);
-      div_assign_r(pos_sum, pos_sum, down_sc_denom, ROUND_UP);
+      div_round_up_by_positive(pos_sum, sc_denom);
     }
     // Add the upper bound constraint, if meaningful.
     if (pos_pinf_count == 0) {
@@ -5822,7 +5801,6 @@ BD_Shape<T>::generalized_affine_image(const Variable var,
   const Coefficient& sc_b = is_sc ? b : minus_b;
   const Coefficient& minus_sc_b = is_sc ? minus_b : b;
   const Coefficient& sc_denom = is_sc ? denominator : minus_denom;
-  const Coefficient& minus_sc_denom = is_sc ? minus_denom : denominator;
   // NOTE: here, for optimization purposes, `minus_expr' is only assigned
   // when `denominator' is negative. Do not use it unless you are sure
   // it has been correctly assigned.
@@ -5895,10 +5873,7 @@ BD_Shape<T>::generalized_affine_image(const Variable var,
       // towards zero. Since `sc_denom' is known to be positive, this amounts to
       // rounding downwards, which is achieved as usual by rounding upwards
       // `minus_sc_denom' and negating again the result.
-      PPL_DIRTY_TEMP(N, down_sc_denom);
-      assign_r(down_sc_denom, minus_sc_denom, ROUND_UP);
-      neg_assign_r(down_sc_denom, down_sc_denom, ROUND_UP);
-      div_assign_r(sum, sum, down_sc_denom, ROUND_UP);
+      div_round_up_by_positive(sum, sc_denom);
     }
 
     if (pinf_count == 0) {
@@ -5967,10 +5942,7 @@ BD_Shape<T>::generalized_affine_image(const Variable var,
       // towards zero. Since `sc_denom' is known to be positive, this amounts to
       // rounding downwards, which is achieved as usual by rounding upwards
       // `minus_sc_denom' and negating again the result.
-      PPL_DIRTY_TEMP(N, down_sc_denom);
-      assign_r(down_sc_denom, minus_sc_denom, ROUND_UP);
-      neg_assign_r(down_sc_denom, down_sc_denom, ROUND_UP);
-      div_assign_r(sum, sum, down_sc_denom, ROUND_UP);
+      div_round_up_by_positive(sum, sc_denom);
     }
 
     if (pinf_count == 0) {
